@@ -116,6 +116,20 @@ def apply_directives(body, directives, unit):
                 raise TemplateError(f"bad frag directive: {val}")
             body.fragment(m2.group(1), m2.group(2))
             continue
+        if key in ("tail.before", "tail.bind"):
+            from extract import stmt_spans
+            spans = stmt_spans(toks, body.open, body.close)
+            if not spans or toks[spans[-1][1]].text == ";":
+                body.lost_hints.append(f"{body.qual}: no tail expression")
+                continue
+            ts, te = spans[-1]
+            if key == "tail.before":
+                body.insert(toks[ts].start, val + "\n")
+            else:
+                name, _, hint = val.partition("|")
+                body.insert(toks[ts].start, f"let {name.strip()} = ")
+                body.insert(toks[te].end, f";\n{hint.strip()}\n{name.strip()}")
+            continue
         if key == "pre":
             body.insert(toks[body.open].end, "\n" + val + "\n")
             continue
@@ -186,7 +200,7 @@ def apply_directives(body, directives, unit):
             else:
                 body.insert(toks[e].end, "\n" + val + "\n")
             continue
-        m = re.fullmatch(r"closure(\d+)\.sig", key)
+        m = re.fullmatch(r"closure(\d+)\.(sig|sigd)", key)
         if m:
             if closures is None:
                 closures = body.closures()
@@ -195,9 +209,18 @@ def apply_directives(body, directives, unit):
                 raise LostAnchor(f"{body.qual}: closure #{k} not found ({len(closures)} closures)")
             st, pe, bs, be = closures[k]
             body.edit(toks[st].start, toks[bs].start, val + " ", "R7-closure", body.text(st, bs - 1) + "  =>  " + val)
+            bind = ""
+            if m.group(2) == "sigd":
+                # `sigd`: the contract names the single parameter `__p`; the closure's ORIGINAL parameter pattern
+                # is kept and bound from it at the start of the body: `let <pattern> = __p;`
+                ps = st + 1 if toks[st].text == "move" else st
+                pat = body.src[toks[ps].end:toks[pe].start].strip() if toks[ps].text == "|" else ""
+                bind = f"let {pat} = __p; "
             if toks[bs].text != "{":
-                body.insert(toks[bs].start, "{ ", order=-10**12)
+                body.insert(toks[bs].start, "{ " + bind, order=-10**12)
                 body.insert(toks[be].end, " }")
+            elif bind:
+                body.insert(toks[bs].end, " " + bind)
             continue
         raise TemplateError(f"unknown directive `{key}`")
 
@@ -248,7 +271,7 @@ def splice(template_path, repo_root, canary=False):
                         raise TemplateError("continuation without directive")
                     directives[-1] = (directives[-1][0], directives[-1][1] + "\n" + d[4:])
                 elif d.startswith("//@"):
-                    m = re.match(r"//@\s*((?:before|after)\s+\"(?:[^\"\\]|\\.)*\"(?:#\d+)?|[\w.*?]+)\s*:(.*)$", d, re.S)
+                    m = re.match(r"//@\s*((?:before|after)\s+\"(?:[^\"\\]|\\.)*\"(?:#\d+)?|[\w.*?]+(?:\([^)]*\))?)\s*:(.*)$", d, re.S)
                     if not m:
                         raise TemplateError(f"bad directive line: {d}")
                     directives.append((m.group(1), m.group(2).strip()))
